@@ -21,6 +21,49 @@ pub fn gen(r: &mut Rng) -> Value {
         let nodes: Vec<Value> = (0..n).map(|i| json!({"kind": r.pick(&["array", "map", "set"]), "parent": if i == 0 { 0 } else { r.below(i) }})).collect();
         return json!({"nest": nodes, "recursive": r.chance(2, 3), "root": r.below(n), "flag": r.pick(&["-r", "--recursive"])});
     }
+    if r.chance(1, 3) {
+        // focused history: ONE live collection of one kind, every operation of that kind over a tiny key / value pool,
+        // so that each write is soon followed by every query of the same key / value (empty values included)
+        let kind = r.below(3);
+        let vals = ["", "a", "x y", "false", "0"];
+        let mut ops = vec![match kind { 0 => json!({"op": "array", "slot": 0, "vals": [r.pick(&vals), r.pick(&vals)]}), 1 => json!({"op": "map", "slot": 0}), _ => json!({"op": "set_new", "slot": 0, "vals": [r.pick(&vals)]}) }];
+        for _ in 0..(3 + r.below(9)) {
+            let v = r.pick(&vals).to_string();
+            let k = r.pick(&["k1", "k2"]).to_string();
+            let i = r.below(3);
+            ops.push(match kind {
+                0 => match r.below(11) {
+                    0 | 1 => json!({"op": "array_push", "slot": 0, "vals": [v]}),
+                    2 => json!({"op": "array_pop", "slot": 0}),
+                    3 => json!({"op": "array_get", "slot": 0, "i": i}),
+                    4 => json!({"op": "array_set", "slot": 0, "i": i, "v": v}),
+                    5 => json!({"op": "array_remove", "slot": 0, "i": i}),
+                    6 => json!({"op": "array_length", "slot": 0}),
+                    7 => json!({"op": "array_contains", "slot": 0, "v": v}),
+                    8 => json!({"op": "array_is_empty", "slot": 0}),
+                    9 => json!({"op": "array_join", "slot": 0, "v": ","}),
+                    _ => json!({"op": "array_clear", "slot": 0}),
+                },
+                1 => match r.below(10) {
+                    0 | 1 | 2 => json!({"op": "map_put", "slot": 0, "k": k, "v": v}),
+                    3 => json!({"op": "map_get", "slot": 0, "k": k}),
+                    4 => json!({"op": "map_remove", "slot": 0, "k": k}),
+                    5 => json!({"op": "map_size", "slot": 0}),
+                    6 | 7 => json!({"op": "map_contains_key", "slot": 0, "k": k}),
+                    8 => json!({"op": "map_contains_value", "slot": 0, "v": v}),
+                    _ => json!({"op": "map_is_empty", "slot": 0}),
+                },
+                _ => match r.below(7) {
+                    0 | 1 => json!({"op": "set_put", "slot": 0, "vals": [v]}),
+                    2 | 3 => json!({"op": "set_contains", "slot": 0, "v": v}),
+                    4 => json!({"op": "set_remove", "slot": 0, "v": v}),
+                    5 => json!({"op": "set_size", "slot": 0}),
+                    _ => json!({"op": "set_is_empty", "slot": 0}),
+                },
+            });
+        }
+        return json!({ "ops": ops });
+    }
     let n = 3 + r.below(10);
     let mut ops = vec![];
     for _ in 0..n {
